@@ -231,6 +231,28 @@ def run_logic(case, env, res, d):
         res.fail(f'logic:{kind}:{symptom}:{case["start"]}',
                  f'{case["api"]} with {kind} at position {pos} of {n} on {case["start"]} {case["numtype"]}/{case["bo"]} '
                  f'array with trailing shape {trail}: {msg} (raised: {type(raised).__name__ if raised else None})', **case)
+    if not res.fails and not case.get('inctx') and (n + pos) % 2 == 0:
+        # ---- the SAME handle afterwards: a second append that fails after one completed chunk, then one that succeeds
+        g1, g2 = good_chunk(rng, dtype, trail, 2, 60), good_chunk(rng, dtype, trail, 1, 61)
+        raised2 = None
+        try:
+            a.iterappend(failing_iter([g1, g2], 1, source_exception(pos)))
+        except Exception as e:
+            raised2 = e
+        expected = np.concatenate([expected, g1], axis=0).astype(dtype)
+        res.count('mon.second_failure_same_handle')
+        probs = oracle(D, path, a, expected, type(raised2).__name__ if raised2 else None)
+        if not probs:
+            try:
+                a.append(g2)
+                expected = np.concatenate([expected, g2], axis=0).astype(dtype)
+                probs = oracle(D, path, a, expected, 'none-expected')
+                probs = [p_ for p_ in probs if p_[0] != 'no-raise']
+            except Exception as e:
+                probs = [('valid-append-raised-after-failures', f'{type(e).__name__}: {str(e)[:160]}')]
+        for symptom, msg in probs:
+            res.fail(f'logic:second-failure:{symptom}', f'after the first failure ({kind}), a second failing iterappend and a valid '
+                                                        f'append through the same handle: {msg}', **case)
 
 
 def run_write(case, env, res, d):
